@@ -115,6 +115,9 @@ def check_m1(ctx) -> None:
                         f'initializer): forked workers replay the parent\'s generator state')
 
 
+SUBSTRING_ARMS: Set[int] = set()
+
+
 def _dispatch_arms(w) -> Tuple[List[Tuple[str, ast.If]], Optional[str], Optional[str]]:
     """The `<selector>.startswith('<name>')` arms of the distribution dispatch; the selector is read through block-local aliases
     (`distribution = input_value[1].strip()`).  Returns (arms, selector text, name of the settings entry the selector indexes)."""
@@ -123,19 +126,32 @@ def _dispatch_arms(w) -> Tuple[List[Tuple[str, ast.If]], Optional[str], Optional
     sels: Set[str] = set()
     entry: Set[str] = set()
     for n in ast.walk(w.node):
-        if isinstance(n, ast.If) and isinstance(n.test, ast.Call) and isinstance(n.test.func, ast.Attribute) \
+        if not isinstance(n, ast.If):
+            continue
+        name = sel_e = None
+        if isinstance(n.test, ast.Call) and isinstance(n.test.func, ast.Attribute) \
                 and n.test.func.attr == 'startswith' and n.test.args and isinstance(n.test.args[0], ast.Constant) \
                 and isinstance(n.test.args[0].value, str):
-            recv = inline_block_locals(n.test.func.value, n)
-            base = recv
-            while isinstance(base, (ast.Call, ast.Attribute, ast.Subscript)):
-                if isinstance(base, ast.Subscript) and isinstance(base.value, ast.Name) and isinstance(base.slice, ast.Constant) \
-                        and base.slice.value == 1:
-                    arms.append((n.test.args[0].value, n))
-                    sels.add(norm(recv))
-                    entry.add(base.value.id)
-                    break
-                base = base.func if isinstance(base, ast.Call) else base.value
+            name, sel_e = n.test.args[0].value, n.test.func.value
+        elif isinstance(n.test, ast.Compare) and len(n.test.ops) == 1 and isinstance(n.test.ops[0], ast.In) and isinstance(n.test.left, ast.Constant) \
+                and isinstance(n.test.left.value, str):
+            name, sel_e = n.test.left.value, n.test.comparators[0]             # `'normal' in <selector>`: a substring test
+            SUBSTRING_ARMS.add(id(n))
+        elif isinstance(n.test, ast.Compare) and len(n.test.ops) == 1 and isinstance(n.test.ops[0], ast.Eq) and isinstance(n.test.comparators[0], ast.Constant) \
+                and isinstance(n.test.comparators[0].value, str):
+            name, sel_e = n.test.comparators[0].value, n.test.left
+        if name is None:
+            continue
+        recv = inline_block_locals(sel_e, n)
+        base = recv
+        while isinstance(base, (ast.Call, ast.Attribute, ast.Subscript)):
+            if isinstance(base, ast.Subscript) and isinstance(base.value, ast.Name) and isinstance(base.slice, ast.Constant) \
+                    and base.slice.value == 1:
+                arms.append((name, n))
+                sels.add(norm(recv))
+                entry.add(base.value.id)
+                break
+            base = base.func if isinstance(base, ast.Call) else base.value
     return arms, (next(iter(sels)) if len(sels) == 1 else None), (next(iter(entry)) if len(entry) == 1 else None)
 
 
@@ -206,6 +222,13 @@ def check_m3(ctx) -> None:
                        _in_orelse_chain(na, nb)
                 ctx.check(excl, 'M3', f'work_package/prefix:{a}<{b}', f'{w.module.rel}:{nb.lineno}',
                           f'dispatch name {a!r} is a prefix of {b!r} and the arms are not exclusive: two draws for one input')
+            # a substring test for `a` also holds for every documented name that contains `a`: unless the longer name is tested first in
+            # the same exclusive chain, its inputs are sampled from the wrong distribution (or twice)
+            if a != b and a in b and id(na) in SUBSTRING_ARMS:
+                b_first = _in_orelse_chain(nb, na)
+                ctx.check(b_first, 'M3', f'work_package/substring:{a}<{b}', f'{w.module.rel}:{na.lineno}',
+                          f'the arm for {a!r} tests `{norm(na.test)}`, which also holds for {b!r}, and is not preceded by the {b!r} arm in one '
+                          f'exclusive chain: a {b!r} input is drawn from np.random.{a}')
 
 
 def _in_orelse_chain(a: ast.If, b: ast.If) -> bool:
